@@ -1,4 +1,5 @@
 import MlModel.Lemmas.PipeAggInst
+import MlModel.Lemmas.PipeAggDtype
 /-!
 # C02 — witnesses (tests by evaluation, `decide`)
 
@@ -39,5 +40,118 @@ theorem C02_filter_batching_witness :
     (aggResult exPipeline exStreamOne).toOption.bind (AList.get? · ⟨"o", ⟨["a"], [2]⟩⟩)
       = (aggResult exPipeline exStream).toOption.bind (AList.get? · ⟨"o", ⟨["a"], [2]⟩⟩) := by
   decide
+
+/-! ## A casting implementation violates "the replaced entry is exactly the value"
+
+The seeded change `C02-m4-replace-mask-keeps-column-dtype` replaces `np.where(mask, items, v)` by
+`result = np.array(items); result[~mask] = v`: numpy item assignment casts `v` INTO the dtype of the
+column.  `castInto` models that cast (entries checked against numpy 2.x: an int column truncates a float
+toward zero and takes a bool as 0 / 1, a bool column takes the truth value, a `<Uw` column keeps the first
+`w` characters of the string form, a float column keeps numbers; an int / float column refuses strings, an int
+column refuses `None`).  `applyNpCast` is `applyNp` with that assignment.  The theorems
+`C02_replace_exact_np` / `C02_replaced_row_is_value` are false of it. -/
+
+/-- numpy item assignment `column[i] = v` for a column of dtype `d` (`w` = the width of a `<Uw` column) -/
+def castInto (d : DType) (w : Nat) (v : Scalar) : Except ErrKind Scalar :=
+  match d, v with
+  | .obj, v => .ok v
+  | .int, .int i => .ok (.int i)
+  | .int, .flt m e => .ok (.int (Int.tdiv m (10 ^ e)))
+  | .int, .bool b => .ok (.int (if b then 1 else 0))
+  | .int, .str _ => .error .value
+  | .int, .none => .error .type
+  | .bool, .int i => .ok (.bool (i != 0))
+  | .bool, .flt m _ => .ok (.bool (m != 0))
+  | .bool, .bool b => .ok (.bool b)
+  | .bool, .str s => .ok (.bool (s != ""))
+  | .bool, .none => .ok (.bool false)
+  | .flt, .str _ => .error .value
+  | .flt, v => .ok v                                  -- (`None` becomes NaN: not modelled)
+  | .str, .none => .ok (.str (String.ofList ("None".toList.take w)))
+  | .str, v => .ok (.str (String.ofList ((pyStr v).toList.take w)))
+
+/-- the width of a string column -/
+def strWidth (ss : List Scalar) : Nat :=
+  ss.foldl (fun w s => match s with
+    | .str t => max w t.length
+    | _ => w) 0
+
+/-- the model of the casting implementation (1-D and N-d columns alike: every scalar of an unselected
+row becomes the cast value) -/
+def applyNpCast (r : Scalar) (bits : List Bool) (xs : List Val) : Except ErrKind Val :=
+  let ss := scalarsList xs
+  match castInto (inferDType ss) (strWidth ss) r with
+  | .error e => .error e
+  | .ok r' => .ok (.seq true (replBits (Val.fill r') bits xs))
+
+/-- int column × 0.5, bool column × 0.5, `<U1` column × `'<pad>'`, 2-D int rows × 0.5, int column × `None`:
+the code's `np.where` (model `applyNp`) inserts exactly the value — as `C02_replace_exact_np` proves in
+general, all these columns being `StrSafe` — the casting implementation inserts 0, `True`, `'<'`, 0 and raises. -/
+theorem C02_casting_impl_witness :
+    -- int column, r = 0.5
+    (applyNp (some (.flt 5 1)) [true, false, true] [.leaf 1, .leaf 9, .leaf 5]).toOption.map Val.scalars
+      = some [.int 1, .flt 5 1, .int 5] ∧
+    (applyNpCast (.flt 5 1) [true, false, true] [.leaf 1, .leaf 9, .leaf 5]).toOption.map Val.scalars
+      = some [.int 1, .int 0, .int 5] ∧
+    -- bool column, r = 0.5
+    (applyNp (some (.flt 5 1)) [true, false] [.leaf (.bool true), .leaf (.bool false)]).toOption.map Val.scalars
+      = some [.bool true, .flt 5 1] ∧
+    (applyNpCast (.flt 5 1) [true, false] [.leaf (.bool true), .leaf (.bool false)]).toOption.map Val.scalars
+      = some [.bool true, .bool true] ∧
+    -- 2-D int rows, r = 0.5: the whole unselected row
+    (applyNp (some (.flt 5 1)) [false, true] [.seq true [.leaf 1, .leaf 2], .seq true [.leaf 3, .leaf 4]]).toOption.map
+        Val.scalars = some [.flt 5 1, .flt 5 1, .int 3, .int 4] ∧
+    (applyNpCast (.flt 5 1) [false, true] [.seq true [.leaf 1, .leaf 2], .seq true [.leaf 3, .leaf 4]]).toOption.map
+        Val.scalars = some [.int 0, .int 0, .int 3, .int 4] ∧
+    -- int column, r = None
+    (applyNp (some .none) [true, false] [.leaf 1, .leaf 9]).toOption.map Val.scalars = some [.int 1, .none] ∧
+    (applyNpCast .none [true, false] [.leaf 1, .leaf 9]).toOption.map Val.scalars = none := by
+  decide
+
+/-- the string case: a `<U1` column and the filler `'<pad>'` -/
+theorem C02_casting_impl_str_witness :
+    (applyNp (some (.str "<pad>")) [true, false] [.leaf (.str "a"), .leaf (.str "b")]).toOption.map Val.scalars
+      = some [.str "a", .str "<pad>"] ∧
+    (applyNpCast (.str "<pad>") [true, false] [.leaf (.str "a"), .leaf (.str "b")]).toOption.map Val.scalars
+      = some [.str "a", .str "<"] := by
+  decide
+
+/-! ## F-C02-replace-str-promote (open)
+
+numpy builds one array from the column and the replacement value; when exactly one of them is a string the
+common dtype is a string dtype and the non-strings are converted (`DType.promote`, `npCast`): the kept rows of
+an int column become `'1'`, `'5'`; a string column turns the filler `True` into `'True'`; a string column and
+the filler `0` raise `DTypePromotionError` on the `np.where` path and give `'0'` on the `np.asarray(result)` path
+(an ndarray column under a list mask).  The Python-level replacement — what a `list` column under a list mask
+gets, `C02_replace_exact_list` — keeps the kept rows and inserts exactly the value.  None of these inputs is
+`StrSafe`, the hypothesis of `C02_replace_exact_np`. -/
+theorem C02_replace_str_promote_witness :
+    -- numpy mask, int column, filler 'pad'
+    (applyNp (some (.str "pad")) [true, false, true] [.leaf 1, .leaf 9, .leaf 5]).toOption.map Val.scalars
+      = some [.str "1", .str "pad", .str "5"] ∧
+    -- what the group-by with replacement has
+    scalarsList (replBits (Val.fill (.str "pad")) [true, false, true] [.leaf 1, .leaf 9, .leaf 5])
+      = [.int 1, .str "pad", .int 5] ∧
+    -- string column, filler True
+    (applyNp (some (.bool true)) [true, false] [.leaf (.str "a"), .leaf (.str "b")]).toOption.map Val.scalars
+      = some [.str "a", .str "True"] ∧
+    -- string column, filler 0: np.where raises
+    (applyNp (some 0) [true, false] [.leaf (.str "a"), .leaf (.str "b")]).toOption.map Val.scalars = none ∧
+    -- an ndarray string column under a LIST mask, filler 0: np.asarray(result) makes it '0' …
+    (applyMask (some 0) (.seq true [.leaf (.str "a"), .leaf (.str "b")]) (.seq [.tt, .ff])).toOption.map Val.scalars
+      = some [.str "a", .str "0"] ∧
+    -- … while the same column as a list keeps the int 0
+    (applyMask (some 0) (.seq false [.leaf (.str "a"), .leaf (.str "b")]) (.seq [.tt, .ff])).toOption.map Val.scalars
+      = some [.str "a", .int 0] ∧
+    -- none of the numpy inputs is StrSafe
+    ¬ Val.StrSafe (.str "pad") (.seq true [.leaf 1, .leaf 9, .leaf 5]) ∧
+    ¬ Val.StrSafe (.bool true) (.seq true [.leaf (.str "a"), .leaf (.str "b")]) := by
+  refine ⟨by decide, by decide, by decide, by decide, ?_, ?_, by decide, by decide⟩
+  · simp [applyMask, applySeq, rewrap, Except.map, Scalar.toVal, Val.shape?, shapes, npCast, inferDType,
+      scalarsList, Val.scalars, Scalar.dtype, DType.infer, strfyList, Val.strfy, Scalar.toStr, pyStr,
+      Except.toOption]
+    rfl
+  · simp [applyMask, applySeq, rewrap, Except.map, Scalar.toVal, scalarsList, Val.scalars, Except.toOption]
+    rfl
 
 end MlModel.C02
